@@ -133,6 +133,18 @@ func (env *evalEnv) ev1(t *Term) interface{} {
 		return !env.bo(t.args[0])
 	case OImp:
 		return !env.bo(t.args[0]) || env.bo(t.args[1])
+	case OSelect:
+		// element of an array variable at a concrete index: an independent input
+		if t.args[0].op == OVar {
+			idx := env.in(t.args[1])
+			key := fmt.Sprintf("%s[%s]", t.args[0].name, idx.String())
+			v, ok := env.vars[key]
+			if !ok {
+				panic(evalErr{"unbound array element " + key})
+			}
+			return v
+		}
+		panic(evalErr{"select from a non-variable array"})
 	case OUF:
 		// bit operations have a concrete meaning
 		if len(t.args) == 2 {
@@ -176,6 +188,9 @@ func collectVars(ts []*Term) []*Term {
 			if x.op == OVar && (x.sort == SInt || x.sort == SBool) {
 				vs = append(vs, x)
 			}
+			if x.op == OSelect && x.args[0].op == OVar && x.args[1].op == OConst {
+				vs = append(vs, x)
+			}
 		})
 	}
 	sort.Slice(vs, func(i, j int) bool { return vs[i].id < vs[j].id })
@@ -201,6 +216,18 @@ func searchCounterexample(facts []*Term, goal *Term, tries int, seed int64) (map
 		for _, v := range vars {
 			if v.sort == SBool {
 				env.vars[v.name] = bi(int64(rng.Intn(2)))
+				continue
+			}
+			if v.op == OSelect {
+				iv := b.m[v.id]
+				lo, hi := iv.lo, iv.hi
+				if lo == nil {
+					lo = bi(0)
+				}
+				if hi == nil {
+					hi = bi(255)
+				}
+				env.vars[fmt.Sprintf("%s[%s]", v.args[0].name, v.args[1].k.String())] = sampleIn(rng, lo, hi, i)
 				continue
 			}
 			iv := b.m[v.id]
